@@ -1,4 +1,5 @@
 import FmpRpc.Proofs.ReaderEq
+import FmpRpc.Props.C04
 /-
   C05 — hostile or damaged input fails closed.  What a theorem can carry: the
   classification of every byte stream by `nextFrame` (a total function), the
@@ -98,19 +99,19 @@ theorem empty_is_eof (max : Nat) (ctx : Ctx) :
     (nextFrame max ctx []).res = .fail .eof := by
   rfl
 
-/-- FULL STATEMENT (does not hold on the unchanged tree, see
-    `truncation_counterexample`): a stream that ends inside the body of a
-    frame makes `NextFrame` return a fatal error other than io.EOF.
+/-- A stream that ends inside the body of a frame makes `NextFrame` return a
+    fatal error other than io.EOF: never a message, never a not-found error
+    the receive loop would continue after, never a clean end of stream.
 
-    PROVED PART: it never yields a message and never io.EOF; the only
-    non-fatal outcome is a not-found error decoded from the part of the body
-    that did arrive (packetizer.go keeps that error and drops the drain
-    error). -/
-theorem truncation_never_clean_partial (max : Nat) (ctx : Ctx) (s rest : Bytes) (l : Int)
+    (On the pinned tree this failed for a truncated frame whose arrived part
+    decoded to a not-found error — repaired by the commit "fix: a truncated
+    frame could be followed by a clean io.EOF"; `finishFrame` models the
+    repaired drain rule.) -/
+theorem truncation_never_clean (max : Nat) (ctx : Ctx) (s rest : Bytes) (l : Int)
     (hp : runStream (decIntBits 32) s = ⟨.ok l, rest⟩)
     (hlo : lenTooLow l = false) (hhi : lenTooHigh l max = false)
     (hshort : rest.length < l.toNat) :
-    (∀ m, (nextFrame max ctx s).res ≠ .ok m) ∧ (nextFrame max ctx s).res ≠ .fail .eof := by
+    ∃ e, (nextFrame max ctx s).res = .fail e ∧ e ≠ .eof := by
   unfold nextFrame
   rw [hp]
   simp only [hlo, hhi, Bool.false_eq_true, if_false]
@@ -120,12 +121,12 @@ theorem truncation_never_clean_partial (max : Nat) (ctx : Ctx) (s rest : Bytes) 
     rw [Prog.byte, runFrame_readn1_nil _ _ hL]
     simp only []
     rw [finishFrame_fail_res]
-    simp
+    exact ⟨.ueof, rfl, by simp⟩
   | cons nb r =>
     rw [Prog.byte, runFrame_readn1_cons _ _ hL, runFrame]
     simp only []
     split
-    · rw [finishFrame_fail_res]; simp
+    · rw [finishFrame_fail_res]; exact ⟨.pkt, rfl, by simp⟩
     obtain ⟨b1, b2⟩ := runFrame_budget (decodeRPC ctx l.toNat (nb.toNat - 0x90)) (l.toNat - 1) r
     have hall := Prog.All_runFrame _ _ (decodeRPC_all ctx l.toNat (nb.toNat - 0x90)) (l.toNat - 1) r
     revert b1 b2 hall
@@ -137,7 +138,7 @@ theorem truncation_never_clean_partial (max : Nat) (ctx : Ctx) (s rest : Bytes) 
     | error e =>
       simp only []
       rw [finishFrame_fail_res]
-      cases e <;> simp [wrapBodyErr]
+      exact ⟨wrapBodyErr e, rfl, by cases e <;> simp [wrapBodyErr]⟩
     | ok fr =>
       simp only []
       have hshort' : ¬ rem2 ≤ r'.length := by
@@ -145,9 +146,21 @@ theorem truncation_never_clean_partial (max : Nat) (ctx : Ctx) (s rest : Bytes) 
         omega
       simp only [finishFrame, if_neg hshort']
       cases fr with
-      | ok m => simp
-      | notFound e k sq n => simp
+      | ok m => exact ⟨.ueof, by simp [FrameRes.continues], by simp⟩
+      | notFound e k sq n => exact ⟨.ueof, by simp [FrameRes.continues], by simp⟩
       | fail e => exact absurd rfl (hall (.fail e) rfl e)
+
+/-- … while a stream that holds whole frames and then ends is reported as
+    io.EOF by the call after the last frame (`empty_is_eof` on what
+    `consumes_declared_length` leaves). -/
+theorem clean_end_after_whole_frame (max : Nat) (ctx : Ctx) (s rest : Bytes) (l : Int)
+    (hp : runStream (decIntBits 32) s = ⟨.ok l, rest⟩)
+    (hlo : lenTooLow l = false) (hhi : lenTooHigh l max = false)
+    (hlen : l.toNat = rest.length) :
+    (nextFrame max ctx (nextFrame max ctx s).rest).res = .fail .eof := by
+  have h := C04.consumes_declared_length max ctx s rest l hp hlo hhi (by omega)
+  rw [h, hlen, List.drop_length]
+  rfl
 
 /-- The receive loop goes on exactly after a message and after the three
     not-found errors; every other result stops it (and closes the
